@@ -150,6 +150,11 @@ public class LuaStr {
     return new TupleValue(out.toArray(new Value[0]));
   }
 
+  public static Value SeqIndexOf(Value q, Value x) {
+    TupleValue t = (TupleValue) q.toTuple();
+    for (int i = 0; i < t.elems.length; i++) if (t.elems[i].equals(x)) return IntValue.gen(i + 1);
+    return IntValue.gen(0);
+  }
   // ---- output helpers
   static void json(Value v, StringBuilder sb) {
     if (v instanceof StringValue) {
